@@ -169,7 +169,7 @@ func ruleC05_3(c *Ctx) {
 	c.examined(len(H.Blocks))
 	key := H.Params[0]
 	var open, closeS *ssa.Call
-	allInstrs(H, func(in ssa.Instruction) {
+	p.allInstrsDeep(H, func(in ssa.Instruction) {
 		if call, ok := in.(*ssa.Call); ok {
 			if _, nd, ok := isSearch(call); ok {
 				switch nd {
@@ -199,8 +199,30 @@ func ruleC05_3(c *Ctx) {
 		"the closing brace is searched in "+expr(hayC)+" instead of the part of the key after the first '{': a '}' that precedes the '{' (key \"}{a}\") hides the tag and the key is hashed whole, whereas the cluster hashes \"a\"")
 	// calls of hash: whole key, or key[o+1 : o+1+c] on a non-empty edge
 	nTag := 0
+	// the values that get hashed: the arguments of hash(), or - when the argument is computed by a helper
+	// (hash(hashTag(key))) - each value that helper can return, with the guards under which it returns it
+	type hashedVal struct {
+		v  ssa.Value
+		at blockOwner
+		in ssa.Instruction
+	}
+	var hashed []hashedVal
 	for _, call := range p.callsIn(H, h) {
-		arg := call.Common().Args[0]
+		arg := strip(call.Common().Args[0])
+		if cl, ok := arg.(*ssa.Call); ok {
+			if hf := cl.Call.StaticCallee(); hf != nil && p.isHelper(hf) {
+				bindCall(hf, cl.Call.Args)
+				for _, r := range returnsReachable(hf) {
+					hashed = append(hashed, hashedVal{results(r.(*ssa.Return))[0], r, r})
+				}
+				continue
+			}
+		}
+		hashed = append(hashed, hashedVal{call.Common().Args[0], call, call.(ssa.Instruction)})
+	}
+	for _, hv := range hashed {
+		arg := hv.v
+		call := hv.in
 		if strip(arg) == ssa.Value(key) {
 			c.ok("Hash: whole-key hash", c.at(call), "hash(key)")
 			continue
@@ -216,7 +238,7 @@ func ruleC05_3(c *Ctx) {
 		}
 		c.check(okS && relative, "Hash: tag substring", c.at(call), "key[o+1 : o+1+c]",
 			"the substring hashed as the tag is "+expr(arg)+", not the bytes strictly between the first '{' and the first '}' after it")
-		gs := guardsAt(call.Block())
+		gs := guardsOf(hv.at)
 		found := guardHas(gs, func(g Guard) bool {
 			x, op, y, ok := cmpGuard(g)
 			k, isK := constInt(y)
@@ -248,7 +270,24 @@ func ruleC05_4(c *Ctx) {
 		if s.Fn.Synthetic != "" || s.Call == nil {
 			continue
 		}
-		encl := outermost(s.Fn)
+		// the anchor function(s) on whose behalf this call is made: the enclosing function or, for a helper
+		// shared by several of them (e.g. Eval and Default merged into one parametrised routine), each of them
+		var contexts []*ssa.Function
+		for _, a := range []*ssa.Function{p.Method(pkgCore, "CRespCodec", "Default"), p.Method(pkgCore, "CRespCodec", "Eval"),
+			p.Method(pkgCore, "CRespCodec", "Frag1"), p.Method(pkgCore, "CRespCodec", "Frag2"), p.Method(pkgCore, "SRespCodec", "MGet")} {
+			if a == nil {
+				continue
+			}
+			for _, g := range p.family(a) {
+				if g == outermostFn(s.Fn) {
+					contexts = append(contexts, a)
+				}
+			}
+		}
+		if len(contexts) == 0 {
+			contexts = []*ssa.Function{homeFn(s.Fn)}
+		}
+		for _, encl := range contexts {
 		c.touch(encl)
 		name := "hashkit.Hash call in " + shortFn(encl)
 		seen[shortFn(encl)]++
@@ -266,10 +305,50 @@ func ruleC05_4(c *Ctx) {
 			return p.isCallTo(ex.Tuple, parseLine)
 		}
 		idxGuard := func(want int64) bool {
-			return guardHas(guardsAt(s.Instr.Block()), func(g Guard) bool {
+			return guardHas(guardsOf(s.Instr), func(g Guard) bool {
 				x, op, y, ok := cmpGuard(g)
+				if !ok || op != token.EQL {
+					return false
+				}
 				k, isK := constInt(y)
-				if !ok || op != token.EQL || !isK || k != want {
+				if prm, isP := y.(*ssa.Parameter); isP && !isK {
+					// the index is a parameter of a shared helper: every call made on behalf of this anchor passes the constant
+					idx := -1
+					for i, q := range prm.Parent().Params {
+						if q == prm {
+							idx = i
+						}
+					}
+					n := 0
+					isK = true
+					for _, cs := range p.SitesOf(prm.Parent()) {
+						if cs.Call == nil || idx < 0 || idx >= len(cs.Call.Args) {
+							continue
+						}
+						inCtx := false
+						for _, g2 := range p.family(encl) {
+							if g2 == outermostFn(cs.Fn) {
+								inCtx = true
+							}
+						}
+						if !inCtx {
+							continue
+						}
+						n++
+						if kk, ok := constInt(cs.Call.Args[idx]); ok {
+							k = kk
+							if kk != want {
+								isK = false
+							}
+						} else {
+							isK = false
+						}
+					}
+					if n == 0 {
+						isK = false
+					}
+				}
+				if !isK || k != want {
 					return false
 				}
 				ph, ok := x.(*ssa.Phi)
@@ -295,10 +374,10 @@ func ruleC05_4(c *Ctx) {
 				want = 2
 			}
 			pl, okP := fromParse(arg)
-			lps := loopsOf(encl)
+			lps := loopsOf(s.Instr.Parent())
 			sameIter := okP && pl.Block().Dominates(s.Instr.Block()) && innermostLoop(lps, pl.Block()) != nil && innermostLoop(lps, pl.Block()) == innermostLoop(lps, s.Instr.Block())
 			c.check(okP && sameIter && idxGuard(want), name, c.at(s.Instr), fmt.Sprintf("Hash(string(argument %d))", want),
-				fmt.Sprintf("the slot is not computed from argument %d of the request (the key): the request is routed by another argument", want), withGuards(guardsAt(s.Instr.Block())))
+				fmt.Sprintf("the slot is not computed from argument %d of the request (the key): the request is routed by another argument", want), withGuards(guardsOf(s.Instr)))
 		case "Frag1", "Frag2":
 			pl, okP := fromParse(arg)
 			first := okP
@@ -324,6 +403,7 @@ func ruleC05_4(c *Ctx) {
 			c.check(okK, name, c.at(s.Instr), "Hash(k) for k in msg.Keys", "the reply assembly looks fragments up by a slot not derived from the request's keys")
 		default:
 			c.ok(name+" (other)", c.at(s.Instr), "not on the routing path: "+expr(arg))
+		}
 		}
 	}
 	for _, need := range []string{"(*CRespCodec).Default", "(*CRespCodec).Eval", "(*CRespCodec).Frag1", "(*CRespCodec).Frag2", "(*SRespCodec).MGet"} {
@@ -406,4 +486,11 @@ func sortStrings(s []string) {
 			s[j], s[j-1] = s[j-1], s[j]
 		}
 	}
+}
+
+func outermostFn(fn *ssa.Function) *ssa.Function {
+	for fn.Parent() != nil {
+		fn = fn.Parent()
+	}
+	return fn
 }
